@@ -54,7 +54,7 @@ def dump(filters, log=print, timeout=3000):
     # drop stale dumps (other tree states)
     for d in os.listdir(MIR_ROOT):
         p = os.path.join(MIR_ROOT, d)
-        if d != key and os.path.isdir(p) and time.time() - os.path.getmtime(p) > 600:
+        if d != key and os.path.isdir(p) and time.time() - os.path.getmtime(p) > 120:
             shutil.rmtree(p, ignore_errors=True)
     tmp = out + ".tmp%d" % os.getpid()
     shutil.rmtree(tmp, ignore_errors=True)
@@ -96,9 +96,14 @@ def dump(filters, log=print, timeout=3000):
 
 def find_bodies(dump_dir, needle):
     """All dump files whose item path contains `needle` (e.g. 'wal_cleaner-{impl#0}-cleanup_up_to')."""
+    import re
+    # `{impl#N}` indices shift when impl blocks are added; match any index
+    pat = re.escape(needle)
+    pat = re.sub(r"\\\{impl\\#\d+\\\}", r"\\{impl#\\d+\\}", pat)
+    rx = re.compile(pat)
     out = []
     for f in sorted(os.listdir(dump_dir)):
-        if f.endswith(".mir") and needle in f:
+        if f.endswith(".mir") and rx.search(f):
             out.append(os.path.join(dump_dir, f))
     return out
 
